@@ -2,23 +2,24 @@
 """run_seeded.py [seed_id ...]  — applies each seeded patch to /repo, runs the quick check of its property
 (and optionally of extra properties), undoes it; prints caught / MISSED."""
 import json, os, subprocess, sys, time
+REPO = os.environ.get("SEEDED_REPO", "/repo")     # a scratch worktree can be used instead of /repo (the checks then get PLATYPUS_REPO)
 ids = sys.argv[1:] or sorted(d for d in os.listdir("/verif/seeded") if os.path.isdir(f"/verif/seeded/{d}"))
 res = {}
-assert subprocess.run("git -C /repo status --short", shell=True, capture_output=True, text=True).stdout.strip() == "", "/repo not clean"
+assert subprocess.run(f"git -C {REPO} status --short", shell=True, capture_output=True, text=True).stdout.strip() == "", f"{REPO} not clean"
 for sid in ids:
     d = f"/verif/seeded/{sid}"
     meta = json.load(open(f"{d}/meta.json"))
     props = [meta["property"]] + meta.get("also_run", [])
     pf = f"{d}/patch_rebased.diff" if os.path.exists(f"{d}/patch_rebased.diff") else f"{d}/patch.diff"
-    a = subprocess.run(f"git -C /repo apply {pf}", shell=True, capture_output=True, text=True)
+    a = subprocess.run(f"git -C {REPO} apply {pf}", shell=True, capture_output=True, text=True)
     if a.returncode:   # the tree has moved on (fix: commits): 3-way merge of the seeded change onto the current HEAD
-        a = subprocess.run(f"git -C /repo apply --3way {pf} && git -C /repo reset -q", shell=True, capture_output=True, text=True)
-        if a.returncode or "<<<<<<<" in subprocess.run("git -C /repo diff", shell=True, capture_output=True, text=True).stdout:
-            print(sid, "patch does not apply (even 3-way)", a.stderr[-200:]); subprocess.run("git -C /repo reset -q --hard HEAD", shell=True); continue
+        a = subprocess.run(f"git -C {REPO} apply --3way {pf} && git -C {REPO} reset -q", shell=True, capture_output=True, text=True)
+        if a.returncode or "<<<<<<<" in subprocess.run(f"git -C {REPO} diff", shell=True, capture_output=True, text=True).stdout:
+            print(sid, "patch does not apply (even 3-way)", a.stderr[-200:]); subprocess.run(f"git -C {REPO} reset -q --hard HEAD", shell=True); continue
     try:
         for prop in props:
             t = time.time()
-            r = subprocess.run(["/venv/bin/python", "check.py", prop], cwd="/verif", capture_output=True, text=True)
+            r = subprocess.run(["/venv/bin/python", "check.py", prop], cwd="/verif", capture_output=True, text=True, env=dict(os.environ, PLATYPUS_REPO=REPO))
             v = [l for l in r.stdout.split("\n") if l.startswith("VIOLATION")]
             print(f"{sid:12s} {prop} exit={r.returncode} {'CAUGHT' if r.returncode == 1 and v else 'MISSED'} {time.time()-t:.0f}s {v[0] if v else r.stderr[-200:]}")
             info = {"exit": r.returncode, "caught": bool(r.returncode == 1 and v), "violation_lines": len(v), "failing_inputs": []}
@@ -32,7 +33,7 @@ for sid in ids:
                     info["failing_inputs"].append({"kind": "unreadable replay", "where": str(e)[:80]})
             res[sid + ":" + prop] = info
     finally:
-        subprocess.run("git -C /repo reset -q --hard HEAD && find /repo -name __pycache__ -prune -exec rm -rf {} +", shell=True)
+        subprocess.run(f"git -C {REPO} reset -q --hard HEAD && find {REPO} -name __pycache__ -prune -exec rm -rf {{}} +", shell=True)
 out = "/verif/seeded/RESULTS.json" if not os.environ.get("VERIF_SEED") else f"/verif/seeded/RESULTS.seed{os.environ['VERIF_SEED']}.json"
 old = json.load(open(out)) if os.path.exists(out) else {}
 old.update(res)
